@@ -45,7 +45,7 @@ F_WHAT = ("FCPTPA.fit on an exactly zero residual (all-zero data, or data remove
           "all later ones, the scores and the reconstruction are NaN")
 
 NEVER = 1000
-RAW_LIMIT = 0
+RAW_LIMIT = 40
 MAXLEVEL = 45
 
 
@@ -394,7 +394,7 @@ def gen_cases(rng, quick):
                                                              alpha_w=(1e-6, 1e-2), seed=1)))
     cases.append(("corpus-zero", np.zeros((3, 4, 5)), dict(K=2, tol=1e-4, maxit=15, adapt=True, alpha_v=(1e-2, 1e2),
                                                           alpha_w=(1e-2, 1e2), seed=1)))
-    n_cases = 46 if quick else 900
+    n_cases = 80 if quick else 900
     for i in range(n_cases):
         kind = KINDS[i % len(KINDS)]
         small = (i % 3 == 0)
@@ -542,7 +542,8 @@ def check_real(rep, run, todo, F, idx, kind, X, p):
             if np.max(np.abs(np.array(estn.eigenvalues) - np.var(Sn, axis=0))) > 1e-9 * max(1.0, float(np.max(np.var(Sn, axis=0)))):
                 bad.append("normalize=True: eigenvalues are not the variances of the scores")
             # exact model on small cases
-            if X.size <= (100 if C.tier() == "quick" else 400) and K <= 3:
+            # exact arithmetic on 53-bit inputs: the residual after K components has ~300*K-bit entries
+            if X.size <= (64 if C.tier() == "quick" else 150) and K <= (2 if C.tier() == "quick" else 3):
                 add_exact(run, todo, info, X, x1, x2, comps, S, imgs, R, Sn, imgn, Rn, ns, sc, nx2)
     for b in bad:
         rep.violation(b, {**info, "updates": counts, "monitors": bad})
@@ -555,7 +556,7 @@ def add_exact(run, todo, info, X, x1, x2, comps, S, imgs, R, Sn, imgn, Rn, ns, s
     # tiny cases: the raw vectors of the update step and their norms (the model divides, exact
     # rationals with odd denominators are slow); otherwise the vectors are handed over already
     # divided by their norms (dyadic numbers, norm oracle 1)
-    raw_mode = X.size <= RAW_LIMIT and K <= 2
+    raw_mode = X.size <= RAW_LIMIT and K <= 1
     for k in range(K):
         u, v, w = comps[k]["calls"][-1][1]
         if raw_mode:
@@ -578,7 +579,7 @@ def add_exact(run, todo, info, X, x1, x2, comps, S, imgs, R, Sn, imgn, Rn, ns, s
 
 def real_runs(rep, rng, quick):
     from FDApy.preprocessing.dim_reduction import fcp_tpa as F
-    run = C.CoqRun("C17", IMPORTS, shard=6)
+    run = C.CoqRun("C17", IMPORTS, shard=2)
     todo = []
     for idx, (kind, X, p) in enumerate(gen_cases(rng, quick)):
         check_real(rep, run, todo, F, idx, kind, X, p)
@@ -605,6 +606,8 @@ def run(rep, props, replay=None):
 
 def replay_case(rep, rp):
     from FDApy.preprocessing.dim_reduction import fcp_tpa as F
+    if "example" in rp and isinstance(rp["example"], dict):      # replay file of an (unlisted) finding
+        rp = rp["example"]
     if rp.get("kind") == "adversarial":
         data = fd.dense([np.arange(3.0), np.arange(3.0)], np.arange(18.0).reshape(2, 3, 3))
         plans = [[float.fromhex(x) for x in pl] for pl in rp["plans"]]
